@@ -77,9 +77,8 @@ def runStep (signal : Bool) (j : Json) (prev : Store) : Except String ((Json × 
       let r := validateNoRecurse i
       let now : Store := ids.map (fun id => (id, validNowNoRec prev.fn i id))
       let tr := noRecurseTrace i
-      let specAgrees := r.valid == Spec.lastPhaseVerdict i && r.log == Spec.noRecurseLog i &&
-        tr == Spec.expectedNoRecurseTrace i &&
-        (!Spec.phasesAgree i || (r.valid == (Spec.specNoRecurse i).valid))
+      let specAgrees := r.valid == (Spec.specNoRecurse i).valid && r.log == Spec.noRecurseLog i &&
+        tr == Spec.expectedNoRecurseTrace i
       return ((obj ([("ret", Json.str (validStr r.valid)), ("log", ofList callJson r.log),
         ("trace", if signal then ofList eventJson tr else Json.null),
         ("at_all_valid", Json.bool (allValid (Store.fn now) sub))] ++ common now), specAgrees), now)
